@@ -192,7 +192,7 @@ func (p *Program) resolveLabel(jump JumpIf, label Label) (uint8, error) {
 		// if not, insert a long jump.
 		jumpDest := p.instructions[dest[0]]
 		if _, ok := jumpDest.(bpf.RetConstant); !ok {
-			jumpDest = bpf.Jump{Skip: uint32(skipN - int(insertAfter.index))}
+			jumpDest = bpf.Jump{Skip: uint32(skipN - int(insertAfter.index-jump.index))}
 		}
 
 		insertIndex := p.insertAfter(insertAfter.index, jumpDest)
